@@ -34,6 +34,7 @@ func runC13(c *Ctx) {
 	c13R5(c)
 	c13ErrState(c)
 	c13Setter(c)
+	c13MinEntropyWrapper(c)
 }
 
 // requestObjectFn: the helper of the authorization endpoint that parses OIDC request objects (role, not name).
